@@ -39,6 +39,15 @@
    operand AS RECREATED, and the pass narrows that type when it substitutes a captured
    iterator by a constant (`it $+` gave 0 instead of 0.0 inside a closure capturing `it`).
 
+   Converse (section "converse"): if the FOLDED instruction finishes with fuel n, the un-folded
+   one finishes with every fuel m >= n + f (f = the fuel the pass ran with) and either panics
+   (operands of a type the checker excludes, discarded by folding: `3 && x` folds to false) or
+   gives literally the same result.  Together ([fold_equiv_*]): without panics, the two
+   programs have exactly the same finished results.
+   For TYPED programs (section "typed", with C01b/C01c) no side condition is left:
+   [checked_fold_unobservable] — for every program Code::parse accepts (fragment of the
+   bridge), running the checked and the recreated instruction lists gives the same results.
+
    The error clause (the "permitted difference"): [recreate_err_site] — every error the pass
    reports comes from an operation on constant operands that fails whenever it is evaluated
    ([fold_site]); [const_site_runtime], [early_site_runtime], [neg_len_runtime] — the
@@ -47,7 +56,9 @@ From Coq Require Import ZArith List Bool Lia.
 Import ListNotations.
 From SSL.Model Require Import Base Ty Float Value Ops Seq Syntax Rt Recreate Exec Check Top.
 From SSL.Lemmas Require Import ExecLemmas FoldLemmas RecrUnfold RecrMono RecrDefs RecrMain RecrTop
-  RecrComp1 RecrComp2 RecrClos RecrErr RecrExamples RecrExamples2.
+  RecrComp1 RecrComp2 RecrClos RecrErr RecrBack1 RecrBack2 RecrEquiv RecrExamples RecrExamples2.
+From SSL.Lemmas Require Import SoundDefs SoundTyping Sound1 SoundRec2 SoundRec3 CheckUnfold Bridge1 Bridge2
+  RecrTyped RecrTyped2 RecrEnd RecrExamples3.
 Local Open Scope Z_scope.
 
 Section C04b.
@@ -160,6 +171,89 @@ Theorem parse_top_fold_unobservable_closures : forall red fuel e l is is' e',
     run_code powf pre n st sc is' last = run_code powf pre n st sc is last.
 Proof. exact (parse_top_fold_unobservable1 powf pre). Qed.
 
+(* --------------------------------------------------------- converse *)
+Theorem recreate_expr_converse : forall f e i i' e',
+  RC f e i = Ok (i', e') -> wfi true false i = true -> dok i' = true ->
+  forall sc, agree e sc -> forall n m st, (n + f <= m)%nat ->
+    sig (E n st sc i') <> SFuel -> sig (E m st sc i) = SPanic \/ E m st sc i = E n st sc i'.
+Proof. exact (back_expr1 powf pre). Qed.
+
+Theorem recreate_line_converse : forall f e i i' e',
+  RC f e i = Ok (i', e') -> wfi true true i = true -> dok i' = true ->
+  forall sc, agree e sc -> forall n m st, (n + f <= m)%nat ->
+    sig (E n st sc i') <> SFuel -> sig (E m st sc i) = SPanic \/ E m st sc i = E n st sc i'.
+Proof. exact (back_line1 powf pre). Qed.
+
+Theorem recreate_code_converse : forall f l e l' e',
+  rec_list_def (RC f) l e = Ok (l', e') ->
+  forallb (wfi true true) l = true -> forallb dok l' = true ->
+  forall sc, agree e sc -> forall n m st last, (n + f <= m)%nat ->
+    sig (run_code powf pre n st sc l' last) <> SFuel ->
+    sig (run_code powf pre m st sc l last) = SPanic \/
+    run_code powf pre m st sc l last = run_code powf pre n st sc l' last.
+Proof. exact (back_code1 powf pre). Qed.
+
+(* both directions: r is a finished result of one program iff it is one of the other *)
+Theorem fold_equiv_expr : forall f e i i' e',
+  RC f e i = Ok (i', e') -> wfi true false i = true -> dok i' = true ->
+  forall sc, agree e sc -> forall st,
+  (forall m, sig (E m st sc i) <> SPanic) ->
+  forall r, finishes (fun n => E n st sc i) r <-> finishes (fun n => E n st sc i') r.
+Proof. exact (RecrEquiv.fold_equiv_expr powf pre). Qed.
+
+Theorem fold_equiv_code : forall f l e l' e',
+  rec_list_def (RC f) l e = Ok (l', e') ->
+  forallb (wfi true true) l = true -> forallb dok l' = true ->
+  forall sc, agree e sc -> forall st last,
+  (forall m, sig (run_code powf pre m st sc l last) <> SPanic) ->
+  forall r, finishes (fun n => run_code powf pre n st sc l last) r <->
+            finishes (fun n => run_code powf pre n st sc l' last) r.
+Proof. exact (RecrEquiv.fold_equiv_code powf pre). Qed.
+
+Theorem parse_top_fold_equiv : forall red fuel e l is is' e',
+  parse_both powf red fuel [] e l = Ok (is, is', e') ->
+  forallb (wfi true true) is = true -> forallb dok is' = true ->
+  parse_top powf red fuel [] e l = Ok (is', e') /\
+  forall sc, agree e sc -> forall st last,
+  (forall m, sig (run_code powf pre m st sc is last) <> SPanic) ->
+  forall r, finishes (fun n => run_code powf pre n st sc is last) r <->
+            finishes (fun n => run_code powf pre n st sc is' last) r.
+Proof. exact (RecrEquiv.parse_top_fold_equiv powf pre). Qed.
+
+(* ------------------------------------------------------------ typed *)
+(* the hypotheses follow from the typing judgement (all_policy: closures allowed) *)
+Theorem typed_line_wfi : forall W0 G K i T G',
+  @typed_line all_policy W0 G K i T G' -> wfi true true i = true.
+Proof. exact (@RecrTyped.typed_line_wfi all_policy true (fun _ _ _ _ _ _ _ _ => eq_refl)). Qed.
+
+Theorem typed_line_dok : forall W0 G K i T G',
+  @typed_line all_policy W0 G K i T G' -> dok i = true.
+Proof. exact (@RecrTyped.typed_line_dok all_policy). Qed.
+
+(* a typed line, typed store and scopes: no side condition but fuel *)
+Theorem recreate_line_typed : forall W0 W G K i T G' e G2 f i' e',
+  @typed_line all_policy W0 G K i T G' -> ext W0 W -> @renv W [] e G G2 ->
+  RC f e i = Ok (i', e') ->
+  forall st sc, @store_ok all_policy W st -> env_ok W sc G -> agree e sc ->
+  forall n,
+    (sig (E n st sc i) <> SFuel -> E n st sc i' = E n st sc i) /\
+    (sig (E n st sc i') <> SFuel -> E (n + f) st sc i = E n st sc i').
+Proof. exact (RecrTyped2.recreate_line_typed powf pre). Qed.
+
+(* END TO END: whatever Code::parse accepts (fragment of the bridge) *)
+Theorem checked_fold_unobservable : forall red W fuel l e G is is' e',
+  tinv W [] e G -> forallb wf_sline l = true -> forallb blfrag l = true ->
+  forallb top_ok l = true ->
+  parse_both powf red fuel [] e l = Ok (is, is', e') ->
+  parse_top powf red fuel [] e l = Ok (is', e') /\
+  forall W1 st sc last, ext W W1 -> @store_ok all_policy W1 st -> env_ok W1 sc G -> agree e sc ->
+  forall n,
+    (sig (run_code powf pre n st sc is last) <> SFuel ->
+     run_code powf pre n st sc is' last = run_code powf pre n st sc is last) /\
+    (sig (run_code powf pre n st sc is' last) <> SFuel ->
+     run_code powf pre (n + fuel) st sc is last = run_code powf pre n st sc is' last).
+Proof. exact (RecrEnd.checked_fold_unobservable powf pre). Qed.
+
 (* ------------------------------------------------ the error clause *)
 Theorem recreate_err_site : forall sc f e i x,
   recreate powf f sc e i = Err x -> fold_site powf x.
@@ -225,3 +319,11 @@ Example clos_prog_runs :
 Proof.
   destruct RecrExamples2.clos_prog_runs as [A [B [C _]]]. repeat split; assumption.
 Qed.
+
+(* the end-to-end theorem applied to clos_prog: only "in the fragment" and "parses" are used *)
+Example clos_prog_end_to_end : forall n last,
+  (sig (run_code pw0 pre0 n st0 [[]] unfolded2 last) <> SFuel ->
+   run_code pw0 pre0 n st0 [[]] folded2 last = run_code pw0 pre0 n st0 [[]] unfolded2 last) /\
+  (sig (run_code pw0 pre0 n st0 [[]] folded2 last) <> SFuel ->
+   run_code pw0 pre0 (n + 100) st0 [[]] unfolded2 last = run_code pw0 pre0 n st0 [[]] folded2 last).
+Proof. exact RecrExamples3.clos_prog_end_to_end. Qed.
